@@ -18,7 +18,7 @@ Coerce ==
     ryes |-> B(TRUE), rtrue |-> B(TRUE), rno |-> B(FALSE), rfalse |-> B(FALSE),
     rYes |-> Tx("Yes"), rTrue |-> Tx("True"), rFALSE |-> Tx("FALSE"),
     rempty |-> Tx(""), rhello |-> Tx("hello"), rspaces |-> Tx("hello big world"),
-    rjson |-> Tx("{\"a\": 1}"), r4x |-> Tx("4x"), rfloat |-> Tx("1.5"), rmerged |-> Tx("merged"), rdebug |-> Tx("debug") ]
+    rjson |-> Tx("{\"a\": 1}"), rinfo |-> Tx("info"), r4x |-> Tx("4x"), rfloat |-> Tx("1.5"), rmerged |-> Tx("merged"), rdebug |-> Tx("debug") ]
 Raws == DOMAIN Coerce
 
 Defaults == [verbose |-> Tx("info"), clean_logs |-> B(TRUE), use_spec_hashes |-> B(FALSE)]
